@@ -210,6 +210,26 @@ def _b2i(t):
 
 def vbinop(ex, op, a, b, node):
     va, vb = as_vec(ex, a), as_vec(ex, b)
+    if isinstance(op, ast.MatMult) and ((va is not None and b.k == "arr" and b.t.ndim == 2) or
+                                        (vb is not None and a.k == "arr" and a.t.ndim == 2)):
+        # vector @ matrix  -> element j = FSUM(lambda i. v_i * M[i, j], n);   matrix @ vector -> element j = FSUM(lambda i. M[j, i] * v_i, n)
+        vec, mat, vec_left = (va, b.t, True) if va is not None else (vb, a.t, False)
+        if vec.present is not None:
+            raise Undecidable("@ on a filtered vector")
+        inner = mat.shape[0] if vec_left else mat.shape[1]
+        outer = mat.shape[1] if vec_left else mat.shape[0]
+        ex.oblige("shape", f"{symex.src_of(node)}: inner extents of the product agree", vec.n == inner, node)
+        mk = "float" if (mat.elem is not None and mat.elem.kind == "float") else "int"
+        kind = "float" if "float" in (vec.kind, mk) else "int"
+
+        def elem(j, vec=vec, mat=mat, vec_left=vec_left, mk=mk, kind=kind):
+            i = z3.Int("fs!i")
+            m = ex.select(mat, [i, j] if vec_left else [j, i])
+            x, y = (vec.f(i), m) if vec_left else (m, vec.f(i))
+            xk, yk = (vec.kind, mk) if vec_left else (mk, vec.kind)
+            body = _elem_arith(ex, ast.Mult(), x, xk, y, yk, node)[0]
+            return mk_fsum(body, i, vec.n, kind == "float", ex)
+        return Val("vec", Vec(outer, elem, kind))
     if isinstance(op, ast.MatMult):
         if va is None or vb is None or va.present is not None or vb.present is not None:
             raise Undecidable("@ on non-vectors")
@@ -323,8 +343,8 @@ def _ev_call(self, n):
             v = self.ev(n.args[0])
             if v.k in ("int", "float", "bool"):
                 return Val("float", self.to_float(v), PYFLOAT)
-        if fn is None and isinstance(n.func, ast.Attribute):
-            # method calls on vectors / 1-d arrays:  v.sum(),  np.nonzero(v)[0].max(initial=-1)
+        if isinstance(n.func, ast.Attribute) and (fn is None or (n.func.attr == "dot" and fn not in self.c.call_facts)):
+            # method calls on vectors / 1-d arrays:  v.sum(),  np.nonzero(v)[0].max(initial=-1),  x.dot(y)
             try:
                 recv = self.ev(n.func.value)
             except Undecidable:
@@ -334,6 +354,9 @@ def _ev_call(self, n):
                     return self.method_call(recv, "transpose", n)
                 if n.func.attr == "sum" and not n.args and (recv.k == "vec" or (recv.k == "arr" and recv.t.ndim == 1)):
                     return vsum(self, as_vec(self, recv))
+                if n.func.attr == "dot" and len(n.args) == 1 and not n.keywords and \
+                        (recv.k == "vec" or (recv.k == "arr" and recv.t.ndim in (1, 2))):
+                    return vbinop(self, ast.MatMult(), recv, self.ev(n.args[0]), n)
                 if n.func.attr == "max" and recv.k == "nz0":
                     kw = {k.arg: k.value for k in n.keywords}
                     if set(kw) == {"initial"} and isinstance(kw["initial"], ast.UnaryOp) and isinstance(kw["initial"].op, ast.USub) \
